@@ -40,6 +40,10 @@ TOKENS_BASE = ["and", "or", "not", "in", "is", "empty", "contains", "matches", "
 TOKENS_SPECIAL = [["[", '"', " ", "x", " ", '"', "]"], ["<L>"], ["<N>"], ["<S>"], ["<B>"], ["<0>"], ['"', "<L>", '"'], ['"', "<B>", '"'], ["a", "<L>"], ['"', "/", "<L>", "<N>", '"']]
 
 
+# the tokens allowed from the third position on in the thorough tier (3-token sequences over the full alphabet are too many)
+LATER = ["and", "or", "not", "in", "is", "empty", "as", "a", "foo", "1", "1.5", '"a"', "`a`", '"a', "(", ")", "{", "}", "[", "]", ",", ".", "==", "!=", "_"]
+
+
 def tokens(tier):
     t = [tok(x) for x in TOKENS_BASE] + TOKENS_SPECIAL
     return t
@@ -141,9 +145,10 @@ def cheap(seeds, cap, workdir):
     return [s for s, n in zip(uniq, steps) if 0 < n <= cap]
 
 
-def peg_world(toks, maxtok, maxparen, seeds, budgets=False, expect=(), checked=False):
+def peg_world(toks, maxtok, maxparen, seeds, budgets=False, expect=(), checked=False, later=None):
     g = json.load(open(os.path.join(vlib.SPEC, "grammar_frozen.json")))
-    return {"grammar": g, "tokens": toks, "maxtok": maxtok, "maxparen": maxparen, "seeds": seeds, "budgets": budgets, "expect": list(expect), "checked": checked}
+    return {"grammar": g, "tokens": toks, "maxtok": maxtok, "maxparen": maxparen, "seeds": seeds, "budgets": budgets, "expect": list(expect), "checked": checked,
+            "later": list(range(1, len(toks) + 1)) if later is None else [toks.index(tok(t)) + 1 for t in later]}
 
 
 def symstr(s):
